@@ -678,6 +678,14 @@ func (e *specEnv) call(n *ECall) specVal {
 		return mathInt(sArr(arg(0).term))
 	case "off":
 		return mathInt(sOff(arg(0).term))
+	case "string":
+		// string(d): the string with the contents of byte slice d in the current state
+		v := arg(0)
+		if v.typ != nil && isString(v.typ) {
+			return v
+		}
+		h := e.heap("E.byte", "(Array Int (Array Int Int))")
+		return specVal{term: vc.b2s(h, v.term), typ: types.Typ[types.String]}
 	case "bcell":
 		// bcell(a, p): byte at absolute position p of byte array a (robust under re-slicing)
 		h := e.heap("E.byte", "(Array Int (Array Int Int))")
@@ -780,6 +788,36 @@ func (e *specEnv) specCall(sf *SpecFn, n *ECall) specVal {
 	for i := range sf.Params {
 		a := e.tr(n.Args[i])
 		args = append(args, a)
+	}
+	if sf.Uninterp {
+		pe := &specEnv{vc: vc, pkg: pkg, where: "uspec " + sf.Name}
+		var psorts, ts []string
+		for i, p := range sf.Params {
+			srt, _ := pe.sortOfName(p.Typ)
+			psorts = append(psorts, srt)
+			ts = append(ts, e.rvalue(args[i]).term)
+		}
+		var resSort string
+		var resT types.Type
+		switch sf.Result {
+		case "mathint", "int":
+			resSort = "Int"
+		case "bool":
+			resSort = "Bool"
+		default:
+			resSort, resT = pe.sortOfName(sf.Result)
+		}
+		fname := "uspec." + sf.Name
+		vc.declareOnce(fname, fmt.Sprintf("(declare-fun %s (%s) %s)", fname, strings.Join(psorts, " "), resSort))
+		t := fname
+		if len(ts) > 0 {
+			t = sx(fname, ts...)
+		}
+		r := specVal{term: t, typ: resT}
+		if resT == nil {
+			r.kind = kindOfSort(resSort)
+		}
+		return r
 	}
 	if !sf.Rec {
 		ne := &specEnv{vc: vc, fr: nil, pkg: pkg, vars: map[string]specVal{}, st: e.st, old: e.old, symHeaps: e.symHeaps, symOrder: e.symOrder, symOld: e.symOld, symOldOrder: e.symOldOrder, symPrefix: e.symPrefix, depth: e.depth + 1, where: e.where + ">" + sf.Name}
